@@ -212,6 +212,8 @@ LoadCL == /\ c.k = "init" /\ Family = "claw"
 LoadLint == /\ c.k = "init" /\ Family = "lint"
             /\ \E t \in { p \in LTPrograms(0) \cup PRPrograms(0) : ProgramOK(p) }, tp \in E2ETapes \cup {Noisy}, off \in {0, 12, 24} :
                   c' = [k |-> "e2epick", tree |-> t, inp |-> <<>>, tape |-> tp, off |-> off]
+(* the hand-written FN2 / PR / NC programs are meant to be text: one that no text denotes is a mistake of the family, not a case to drop *)
+ASSUME Family # "e2e" \/ \A p \in FN2 \cup NCPrograms : ProgramOK(p) \/ (PrintT(<<"INEXPRESSIBLE", p>>) /\ FALSE)
 LoadE2E == /\ c.k = "init" /\ Family = "e2e"
            /\ \/ \E t \in { p \in LTPrograms(0) : ProgramOK(p) }, tp \in {Noisy}, off \in {0} :
                     c' = [k |-> "e2epick", tree |-> t, inp |-> <<>>, tape |-> tp, off |-> off]
